@@ -79,6 +79,7 @@ def run(ctx):
         seen = set()
         cnt = {"epoch_change": 0, "guarantee_prev_rotation": 0, "guarantees": 0, "assurances": 0, "preimages": 0, "available": 0, "accumulated": 0}
         tau, E, R = 0, 1, 1
+        kinds = {}
         for e in recs:
             if e["ev"] == "Reset":
                 tau, E, R = e["tau"], e["P"]["E"], e["P"]["R"]
@@ -89,6 +90,10 @@ def run(ctx):
                 cnt["epoch_change"] += 1
             if any(g["slot"] // R != e["slot"] // R for g in e["gs"]):
                 cnt["guarantee_prev_rotation"] += 1
+            for g in e["gs"]:
+                for dg in g["res"]:
+                    if dg["e"] and dg["i"] and dg["x"] and dg["z"]:
+                        kinds[dg.get("r", "ok")] = kinds.get(dg.get("r", "ok"), 0) + 1
             for k, f in (("guarantees", "gs"), ("assurances", "as"), ("preimages", "pre"), ("available", "avail"), ("accumulated", "acc")):
                 if e[f]:
                     cnt[k] += 1
@@ -105,6 +110,10 @@ def run(ctx):
                            "one guarantee, assurance, preimage, newly available report or accumulation entry; cases = systematic single-block "
                            "partition (tiny parameters) + seeded histories under V=3 / V=6 / V=1023")
         ctx.cov["samples"] = [recs[0]] + [json.loads(x) for x in blocks[len(blocks) // 2:len(blocks) // 2 + 1]]
+        ctx.cov["digest_result_kinds_with_nonzero_load"] = kinds
+        for k in ("ok", "out-of-gas", "panic", "bad-exports", "output-oversize", "bad-code", "code-oversize"):
+            if not kinds.get(k):
+                raise vf.Infra("generator starved: no incoming digest with result %s and a non-zero refine load (%s)" % (k, kinds))
         for need in ("epoch_change", "guarantee_prev_rotation", "guarantees", "assurances", "preimages", "available", "accumulated"):
             if not cnt[need]:
                 raise vf.Infra("generator starved: no block with %s (%s)" % (need, cnt))
